@@ -135,9 +135,19 @@ def gen_case(rng, spec, layer, dw, want_supported=None):
                 c['ic'] = c['oc'] = c['g'] = ch()
             else:
                 c['ic'] = ch(); c['oc'] = ch()
-                c['g'] = rng.choice([1, 1, 1, 1, 2]) if spec == 'diana_latency' else 1
-                if c['g'] == 2:                      # a grouped convolution: groups divide both channel counts
+                # groups in {1, 2, in_channels} for the generic handlers (the size / operation counts divide
+                # by it); torch wants both channel counts divisible by groups, relaxed counts only occur
+                # with groups = 1 (PIT / MPS convert groups == 1 or depthwise convolutions only)
+                r = rng.random()
+                if relaxed or r < 0.5:
+                    c['g'] = 1
+                elif r < 0.75:
+                    c['g'] = 2
                     c['ic'] = F(2 * rng.randint(1, 65)); c['oc'] = F(2 * rng.randint(1, 65))
+                else:                                 # groups = in_channels, channel multiplier 1..4
+                    cin = rng.randint(1, 65 if rng.random() < 0.7 else 130)
+                    mult = rng.randint(1, max(1, min(4, 130 // cin)))
+                    c['ic'] = F(cin); c['oc'] = F(cin * mult); c['g'] = F(cin)
             if spec == 'ne16_latency':
                 kk = rng.choice([1, 3, 3, 3, 5])
                 c['k'] = [kk] * kd if rng.random() < 0.9 else [kk, rng.choice(K_GRID)][:kd]
